@@ -799,6 +799,7 @@ inline const auto& parser_h()
                 num('(', num, ')') >= _e2,
                 num('[', '[', num, ']', ']') >= _e3,
                 ll(num) >= construct<IV>{},                                  // IV{n}: a one-element list
+                ll(num, '!') >= construct<IV, 1>{},                          // construct<T, 1> with symbols AFTER the chosen one: they are ignored (T could be built from them too)
                 ll(ll, ',', num) >= push_back<1, 3>{},                       // container first, one symbol between
                 rl(num) >= construct<IV, 1>{},
                 rl(num, ',', rl) >= push_back<3, 1>{},                       // element first, one symbol between (lead 0, gap 1)
@@ -832,6 +833,7 @@ inline bool eval_h(const std::string& text, Top& out)
     int v = 0;
     // ll: num (',' num)*  in order
     if (!num(v)) return false; out.ll.push_back(v);
+    if (p < t.size() && t[p] == '!') ++p;        // ll <- num '!' : the list holds the number only
     while (p < t.size() && t[p] == ',') { ++p; if (!num(v)) return false; out.ll.push_back(v); }
     if (!expect(';')) return false;
     // rl: num (',' num)*  : built from the tail -> reversed
@@ -868,7 +870,7 @@ struct P_C02h
             auto sp = [&]() { return rng.chance(1, 5) ? std::string(rng.chance(1, 2) ? " " : "\n") : std::string(); };
             auto cnt = [&]() -> size_t { uint32_t k = rng.below(30); return k == 0 ? 1030 + rng.below(300) : k < 3 ? 20 + rng.below(60) : rng.below(6); };
             std::string s;
-            { size_t k = 1 + cnt(); for (size_t j = 0; j < k; ++j) { if (j) s += "," + sp(); s += num(0); } }
+            { size_t k = 1 + cnt(); for (size_t j = 0; j < k; ++j) { if (j) s += "," + sp(); s += num(0); if (j == 0 && rng.chance(1, 3)) s += sp() + "!"; } }
             s += ";" + sp();
             { size_t k = 1 + cnt(); for (size_t j = 0; j < k; ++j) { if (j) s += "," + sp(); s += num(0); } }
             s += ";" + sp();
